@@ -19,6 +19,10 @@
 
 
 
+#include <xercesc/util/OutOfMemoryException.hpp>
+
+
+
 #include "xercesc/sax/ErrorHandler.hpp"
 #include "xercesc/sax/SAXParseException.hpp"
 
@@ -212,6 +216,12 @@ parseDoc(
                     uri,
                     base,
                     &theErrorHandler);
+    }
+    catch(const xercesc::OutOfMemoryException&)
+    {
+        // This is not a problem with the document, so it
+        // must not be reduced to a warning, or ignored.
+        throw;
     }
     catch(...)
     {
